@@ -34,7 +34,7 @@ def resolve_defaults(m: Model, toks: List[Tuple[Any, ...]]) -> List[Tuple[Any, .
 
 def preconditions(ctx: Ctx, m: Model) -> None:
     """Shape facts every rendering rule relies on; failing them is 'cannot decide'."""
-    ctx.require(m.sib_return == [("LOOP", m.sib_acc, 0)],
+    ctx.require(len(m.sib_return) == 1 and m.sib_return[0][:2] == ("LOOP", m.sib_acc),
                 f"TagList.get_html_string returns more than the loop accumulation: {m.sib_return}")
     init_acc = m.sib_init.get(m.sib_acc)
     ctx.require(init_acc == "", f"TagList.get_html_string: accumulator starts as {init_acc!r}, not ''")
@@ -164,12 +164,19 @@ def frame_tokens(m: Model, leaf: Any, sc: Any = None) -> List[Tuple[Any, ...]]:
     out = []
     for t in toks:
         if t[0] == "LOOP":
-            rec = leaf.run.loops[t[2]] if t[2] < len(leaf.run.loops) else None
+            recs = [r for r in leaf.run.loops if r.__dict__.get("loop_key") == t[2]]
+            rec = recs[0] if recs else None
             d = getattr(rec.iter_value, "iter_descr", None) if rec is not None else None
             if d is not None and d[0] == "items" and isinstance(d[1], SObj) and d[1].name == "self.attrs":
                 out.append(("ATTRS",))
             else:
                 out.append(("LOOP", short(rec.iter_value) if rec else "?"))
+        elif t[0] == "JOINMAP":
+            d = getattr(t[1].get("over"), "iter_descr", None)
+            if d is not None and d[0] == "items" and isinstance(d[1], SObj) and d[1].name == "self.attrs" and not t[1].get("cond"):
+                out.append(("ATTRS",))
+            else:
+                out.append(("JOIN", short(t[1].get("over"))))
         elif t[0] in ("TAG", "CHILDREN"):
             out.append(_resolve_bools(t, leaf, sc))
         else:
